@@ -28,6 +28,7 @@ META = {
         "removes nothing. states/transitions are those of the BFS in (B) plus one state per on_ready case in (A)."
         " Entry lists of one task: all lists of 3 over {t1, t2, cron} (equal times adjacent, apart, all three); thorough: lists of 4 with at least two equal times."
         " One entry declares its positional arguments as a tuple."
+        " Two entries within the same second (microsecond-different times)."
     ),
     "assumptions": ["tasks are registered on fresh brokers per case; the global shared-task registry is restored after each case"],
     "required_counters": ["on_ready_cases", "label_source_task_sets", "firings"],
@@ -48,6 +49,8 @@ ENTRY_ALPHA: Dict[str, Dict[str, Any]] = {
     "t2D": {"time": T2, "args": ["@dataclass"], "kwargs": {"m": "@model"}},  # declared with a dataclass / pydantic model argument
     "t1T": {"time": T1, "args": (7, "x"), "kwargs": {"k": 3}},  # positional arguments declared as a tuple
     "t1N": {"time": T1.replace(tzinfo=None)},  # naive time with the wall clock of the aware t1
+    "t1u": {"time": T1 + dt.timedelta(microseconds=250_000)},  # two times within one second of t1
+    "t1v": {"time": T1 + dt.timedelta(microseconds=750_000)},
 }
 
 
@@ -201,7 +204,10 @@ def task_sets(tier: str) -> List[Tuple[Tuple[str, ...], ...]]:
     out: List[Tuple[Tuple[str, ...], ...]] = []
     for l1 in lists:
         out.append((l1,))
-    small = [l for l in lists if len(l) <= 2]
+    # two tasks in one source: lists over the seven basic entry kinds (the variants t1T / t1N / t1u / t1v only
+    # differ from them in how the entry itself is matched, which the one-task lists cover)
+    core = set(list(ENTRY_ALPHA)[:7])
+    small = [l for l in lists if len(l) <= 2 and set(l) <= core]
     for l1 in small:
         for l2 in small:
             out.append((l1, l2))
